@@ -74,6 +74,34 @@ func init() {
 		}
 		return &Obs{Line: strings.Join(out, " "), Data: o}
 	}
+	// queuelong <cap> <n>: additions 0 … n-1, a snapshot after 2^k-1, 2^k, 2^k+1 (k = 3 … 17) and after n additions
+	opTable["queuelong"] = func(t []string) *Obs {
+		cp, n := atoi(t[1]), atoi(t[2])
+		q := circularQueue.NewCircularQueue(cp)
+		o := &queueObs{cap: cp}
+		cps := map[int]bool{n: true}
+		for k := 3; k < 18; k++ {
+			for _, v := range []int{1<<uint(k) - 1, 1 << uint(k), 1<<uint(k) + 1} {
+				cps[v] = true
+			}
+		}
+		var out []string
+		for i := 0; i < n; i++ {
+			q.Add(idMsg(i))
+			o.added++
+			if cps[i+1] {
+				s := snap{held: len(q.Items), addsDoneBefore: int64(o.added), addsBegunAfter: int64(o.added)}
+				var ids []string
+				for _, m := range q.GetMessages() {
+					s.ids = append(s.ids, msgID(m))
+					ids = append(ids, fmt.Sprint(msgID(m)))
+				}
+				o.snaps = append(o.snaps, s)
+				out = append(out, fmt.Sprintf("%d:[%s]", i+1, strings.Join(ids, ",")))
+			}
+		}
+		return &Obs{Line: strings.Join(out, " "), Data: o}
+	}
 	// queueconc <cap> <nadds> <nreaders> <procs>: one adder adds ids 0..n-1 while readers take snapshots
 	opTable["queueconc"] = func(t []string) *Obs {
 		cp, n, readers := atoi(t[1]), atoi(t[2]), atoi(t[3])
@@ -142,7 +170,7 @@ func init() {
 		return &Obs{Line: fmt.Sprintf("final %v", s.ids), Data: o, NoModel: true}
 	}
 	props["C18"] = &Prop{
-		Rule: "op queue <cap> a<id>… g…: operation sequences over capacities 1..8 — exhaustive add/snapshot interleavings to a bound (quick: length 8, thorough: 12) plus long runs far beyond the capacity — " +
+		Rule: "op queuelong <cap> <n>: 70,000 (thorough 140,000) additions with snapshots around every power of two up to 2^17; op queue <cap> a<id>… g…: operation sequences over capacities 1..8 — exhaustive add/snapshot interleavings to a bound (quick: length 8, thorough: 12) plus long runs far beyond the capacity — " +
 			"against the model and the last-N oracle; op queueconc: one adder and 1..4 snapshot readers on the real queue, every snapshot must be a contiguous run of the addition order ending between " +
 			"the adds completed before its invocation and the adds begun before its return, of the right length; non-trivial = more additions than the capacity; distinct = distinct op line",
 		Gen: func(c *Ctx, emit func(class, op string)) {
@@ -186,6 +214,10 @@ func init() {
 				}
 				ops = append(ops, "g")
 				emit("long-run", fmt.Sprintf("queue %d %s", cp, strings.Join(ops, " ")))
+			}
+			// very long runs: the running index passes 2^8, 2^15, 2^16, 2^17
+			for _, cp := range []int{1, 2, 3, 8} {
+				emit("very-long-run", fmt.Sprintf("queuelong %d %d", cp, c.N(70000, 140000)))
 			}
 			for i := 0; i < c.N(6, 60); i++ {
 				emit("concurrent", fmt.Sprintf("queueconc %d %d %d", 1+r.Intn(8), 2000+r.Intn(4000), 1+r.Intn(4)))
